@@ -163,7 +163,12 @@ class Dictionary:
         split_relative_regex = self._get_split_relative_regex_cache()
         match_relative_regex = self._get_match_relative_regex_cache()
 
-        tokens = split_relative_regex.split(string)
+        if self._relative_strings:
+            tokens = split_relative_regex.split(string)
+        else:
+            # without counted patterns the split expression is empty and would
+            # match between any two non-word characters ("ejo (hazoza)")
+            tokens = [string]
 
         for i, token in enumerate(tokens):
             if match_relative_regex.match(token):
